@@ -358,6 +358,9 @@ def r8_adjacency_errors_are_identifier_glue_only(ctx):
                     continue
                 if si["kind"] == "call" and (si["callee"] or "").split("::")[-1] == "is_ascii_digit":
                     continue    # the loops that consume the literal's own digits
+                if si["kind"] == "bin" and si["op"] == "Eq" and 95 in (si["a"].get("int") if isinstance(si["a"], dict) else None, si["b"].get("int") if isinstance(si["b"], dict) else None):
+                    ident = ident or 0 not in labs
+                    continue    # `== b'_'`: the underscore is an identifier byte (is_alpha_or_underscore written out)
                 bad.append(txt[:50])
         if bad:
             ctx.bad("adjacency|scan_number|%s" % re.sub(r"\s+", "", bad[0])[:40], fn.where(c.block), "a number literal is rejected because of the byte that follows it under `%s`, not only when that byte would glue a word to it: the same tokens separated by a space are accepted, so layout decides (`6.25.sqrt()` vs `6.25 .sqrt()`)" % bad[0])
